@@ -182,13 +182,17 @@ int pthread_create(pthread_t* th, const pthread_attr_t* attr, void* (*fn)(void*)
 extern "C" int __pthread_mutex_lock(pthread_mutex_t*);
 int pthread_mutex_lock(pthread_mutex_t* m)
 {
-    static int (*fn)(pthread_mutex_t*) = nullptr;
+    // (resolved lazily - dlsym itself may take locks, hence the alias as first value -, possibly by two threads at once:
+    // both store the same value, the accesses are atomic so that the race detector has nothing of the harness's to report)
+    typedef int (*lock_fn)(pthread_mutex_t*);
+    static lock_fn fnCell = nullptr;
+    lock_fn fn            = __atomic_load_n(&fnCell, __ATOMIC_RELAXED);
     if (!fn)
     {
-        fn = __pthread_mutex_lock; // (dlsym itself may take locks: resolve lazily and fall back to the alias)
-        auto r = sim::real<int (*)(pthread_mutex_t*)>("pthread_mutex_lock");
-        if (r)
-            fn = r;
+        __atomic_store_n(&fnCell, (lock_fn)__pthread_mutex_lock, __ATOMIC_RELAXED);
+        auto r = sim::real<lock_fn>("pthread_mutex_lock");
+        fn     = r ? r : (lock_fn)__pthread_mutex_lock;
+        __atomic_store_n(&fnCell, fn, __ATOMIC_RELAXED);
     }
     // fine threads park before every acquisition; any gated thread parks when the mutex is held (only one gated
     // thread runs at a time, so the holder is a parked thread: running on would block the gate itself)
